@@ -157,7 +157,7 @@ fn main() {
     }
 
     // pool B: generated declaration graphs, with the re-ordering experiment
-    let n_prog = if thorough { 1500 } else { 120 };
+    let n_prog = if thorough { 700 } else { 120 };
     for p in 0..n_prog {
         let n_units = 3 + rng.below(10) as usize;
         let prog = Program::generate(&mut rng, n_units);
